@@ -16,7 +16,7 @@ class C19(Property):
     design_ref = 'DESIGN.md section 10, C19'
     required_theorems = (
         'retention_bounded', 'retention_bounded_no_foreign', 'final_retention_bounded',
-        'deletion_hits_processed_child',
+        'deletion_hits_processed_child', 'xmed_retention_bounded',
     )
     level_text = ('Lean 4 theorem over the parser state machine: for every document and every way of feeding it, the '
                   'number of children retained under the root at every event dispatch is at most 3 plus the number of '
@@ -39,6 +39,11 @@ class C19(Property):
                 'non-trivial = more than 10 events; distinct by content')
 
     def generate(self, rng, tier):
+        for i in range(40 if tier == 'quick' else 600):
+            n = rng.choice([5, 20, 60, 300] if tier == 'quick' else [5, 50, 500, 3000])
+            kinds = ''.join(rng.choice('RRRNNK' if i % 3 else 'RRN') for _ in range(n))
+            pre = ''.join(rng.choice('RNK') for _ in range(rng.randint(0, 4))) if i % 2 else ''
+            yield {'kind': 'xmed', 'kinds': kinds, 'pre': pre}
         sizes = [30, 60, 120, 400, 1500] if tier == 'quick' else [30, 100, 1000, 5000, 30000]
         reps = 3 if tier == 'quick' else 4
         for n in sizes:
@@ -47,6 +52,58 @@ class C19(Property):
                 for mode in (['bytes', 'chunk7', 'chunk100', 'random', 'pullfile'] if n <= (400 if tier == 'quick' else 5000)
                              else ['chunk100', 'random', 'pullfile']):
                     yield {'n': n, 'seed': seed, 'foreign': r == 1, 'mode': mode, 'big': 300 if mode == 'pullfile' and n < 200 else 0}
+
+    def run_xmed(self, case):
+        """Drive the real XmlTranscoderMediator; record the index of every record element in its parent."""
+        import io
+        from edxml.transcode import NullTranscoder
+        from edxml.transcode.xml import XmlTranscoderMediator, XmlTranscoder
+        log = []
+        state = {}
+
+        class T(XmlTranscoder):
+            TYPES = ['rec']
+            TYPE_MAP = {'.': 'rec'}
+            TYPE_PROPERTIES = {'rec': {'id': 'object-type.string'}}
+            TYPE_HASHED_PROPERTIES = {'rec': ['id']}
+            PROPERTY_MAP = {'rec': {'@id': 'id'}}
+
+            def create_object_types(self, ontology):
+                if ontology.get_object_type('object-type.string') is None:
+                    ontology.create_object_type('object-type.string')
+
+            def generate(self, element, record_selector, **kw):
+                parent = element.getparent()
+                if parent.tag == 'records':
+                    log.append(parent.index(element))
+                    state['parent'] = parent
+                yield from super().generate(element, record_selector, **kw)
+        class S(T):
+            TYPES = ['srec']
+            TYPE_MAP = {'.': 'srec'}
+            TYPE_PROPERTIES = {'srec': {'id': 'object-type.string'}}
+            TYPE_HASHED_PROPERTIES = {'srec': ['id']}
+            PROPERTY_MAP = {'srec': {'@id': 'id'}}
+        parts = ['<root><summary>']
+        for i, k in enumerate(case['pre']):
+            parts.append({'R': '<item id="s%d"/>' % i, 'N': '<note>sn%d</note>' % i, 'K': '<other>sk%d</other>' % i}[k])
+        parts.append('</summary><records>')
+        for i, k in enumerate(case['kinds']):
+            parts.append({'R': '<item id="r%d"/>' % i, 'N': '<note>n%d</note>' % i, 'K': '<other>k%d</other>' % i}[k])
+        parts.append('</records></root>')
+        out = io.BytesIO()
+        err = None
+        try:
+            with XmlTranscoderMediator(out) as m:
+                m.register('/root/summary/item', S())
+                m.register('/root/records/item', T())
+                m.register('/root/records/note', NullTranscoder())
+                m.add_event_source('/d/')
+                m.set_event_source('/d/')
+                m.parse(io.BytesIO(''.join(parts).encode()))
+        except Exception as ex:
+            err = type(ex).__name__
+        return {'err': err, 'log': log, 'children': len(state['parent']) if 'parent' in state else None}
 
     def items_of(self, case):
         rng = random.Random(case['seed'])
@@ -58,6 +115,8 @@ class C19(Property):
         return items
 
     def observe(self, case):
+        if case.get('kind') == 'xmed':
+            return self.run_xmed(case)
         items = self.items_of(case)
         data, _ = P.build_document(items)
         mode = case['mode']
@@ -86,14 +145,37 @@ class C19(Property):
         return {'err': obs['err'], 'nEvents': obs['nEvents'], 'sizes': obs['sizes'], 'children': obs['children']}
 
     def requests(self, case):
+        if case.get('kind') == 'xmed':
+            return [{'op': 'xmed', 'kinds': list(case['kinds']), 'cross': 'R' in case['pre']}]
         return [{'op': 'parse', 'reg': P.make_registry(REGS, False, True),
                  'chunks': [P.model_items(self.items_of(case))], 'rootEnd': True, 'versionOk': True}]
 
     def predict(self, case, replies):
+        if case.get('kind') == 'xmed':
+            r = replies[0]
+            return {'err': None, 'log': r['log'], 'children': r['children'] if 'R' in case['kinds'] else None}
         v = P.model_view(replies[0], self.items_of(case))
         return {'err': v['err'], 'nEvents': v['nEvents'], 'sizes': v['sizes'], 'children': v['children']}
 
     def oracle(self, case, obs):
+        if case.get('kind') == 'xmed':
+            if obs['err'] is not None:
+                return 'XML transcoder mediator failed: %s' % obs['err']
+            kinds = case['kinds']
+            lead = kinds.index('R') if 'R' in kinds else len(kinds)
+            recs = [i for i, k in enumerate(kinds) if k == 'R']
+            if len(obs['log']) != len(recs):
+                return '%d records delivered, %d in the document' % (len(obs['log']), len(recs))
+            prev = -1
+            for idx, i in zip(obs['log'], recs):
+                others = kinds[:i].count('K')
+                notes_since = kinds[prev + 1:i].count('N') if prev >= 0 else 0
+                if idx > lead + 1 + others + notes_since:
+                    return ('when record %d is delivered its parent still holds %d earlier children (bound: %d leading + 1 '
+                            '+ %d without transcoder + %d discardable since the previous record)' % (
+                                i, idx, lead, others, notes_since))
+                prev = i
+            return None
         if obs['err'] is not None:
             return 'valid document failed to parse: %s' % obs['err']
         items = self.items_of(case)
@@ -115,18 +197,32 @@ class C19(Property):
         return None
 
     def neighbours(self, case, rng):
+        if case.get('kind') == 'xmed':
+            return []
         return [dict(case, seed=rng.randint(0, 10 ** 9), n=min(case['n'], 200)) for _ in range(10)]
 
     def reductions(self, case):
+        if case.get('kind') == 'xmed':
+            k = case['kinds']
+            while len(k) > 2:
+                k = k[:len(k) // 2]
+                yield dict(case, kinds=k)
+            if case['pre']:
+                yield dict(case, pre='')
+            return
         n = case['n']
         while n > 4:
             n //= 2
             yield dict(case, n=n)
 
     def nontrivial(self, case):
+        if case.get('kind') == 'xmed':
+            return json.dumps(case, sort_keys=True) if case['kinds'].count('R') > 2 else None
         return json.dumps(case, sort_keys=True) if case['n'] > 10 else None
 
     def sample_view(self, case):
+        if case.get('kind') == 'xmed':
+            return dict(case, kinds=case['kinds'][:40])
         items = self.items_of(case)
         return {'case': case, 'first_items': items[:6], 'n_items': len(items)}
 
